@@ -177,7 +177,7 @@ def expected_from_lean(ck, cases):
             c.expect = ("lean-" + f[0], [])
 
 
-def run_corpus(ck, stream, n, per_bin=20, allow_regex=True, forms=None, default_features=True, seed_salt=0, use_cache=True, positions=None, edition="2024", gen_stream=None):
+def run_corpus(ck, stream, n, per_bin=20, allow_regex=True, forms=None, default_features=True, seed_salt=0, use_cache=True, positions=None, edition="2024", gen_stream=None, release=False):
     """Returns the list of cases with .expect (spec) and .got (implementation)."""
     key = "%s-%s-%d-%s-%d-%d-%s-%s" % (repo_hash(), stream, ck.seed, ck.tier, n, seed_salt, allow_regex, default_features)
     cdir = os.path.join(CACHE, "t3")
@@ -209,7 +209,7 @@ def run_corpus(ck, stream, n, per_bin=20, allow_regex=True, forms=None, default_
             c.got = ("rejected", [], "macro-%s %s" % (c.parse, getattr(c, "parse_msg", "")))
     t0 = time.time()
     for attempt in range(3):
-        proj = e2e.Project("t3-%s" % stream, default_features=default_features, edition=edition)
+        proj = e2e.Project("t3-%s" % stream, default_features=default_features, edition=edition, release=release)
         try:
             bins = {}
             srcs = {}
